@@ -85,6 +85,15 @@ def run_unit(unit, seed=None, rlimit=None, canary_for=None, extra_tag="", num_th
         res.tool_errors.append(f"extract: {e}")
         return res
     res.records = rec
+    # mechanical scan of the generated text for everything that is assumed rather than proved
+    import re as _re
+    res.records["assumption_scan"] = {
+        "external_body": len(_re.findall(r"#\[verifier::external_body\]", text)),
+        "assume_specification": len(_re.findall(r"\bassume_specification\b", text)),
+        "assume": len(_re.findall(r"\bassume\s*\(", text)),
+        "admit": len(_re.findall(r"\badmit\s*\(", text)),
+        "uninterp_spec_fn": len(_re.findall(r"\buninterp\s+spec\s+fn\b", text)),
+    }
     try:
         obl = extract.enumerate_obligations(text)
     except extract.ExtractError as e:
